@@ -50,7 +50,12 @@ impl Database {
             .map(|path| {
                 (
                     path,
-                    matcher.fuzzy_match(&path.search_text, query).unwrap_or(0),
+                    // a matcher of its own for every entry: a matcher that is reused keeps state
+                    // between calls and scores the same pair differently depending on what it
+                    // matched before, which made the order of results differ from run to run
+                    SkimMatcherV2::default()
+                        .fuzzy_match(&path.search_text, query)
+                        .unwrap_or(0),
                 )
             })
             .collect::<Vec<_>>()
